@@ -3,7 +3,7 @@
 From Coq Require Import ZArith List Bool Lia.
 From Mistletoe Require Import Base.Sx Base.PyStr Base.PyText Gen.GenConfig Model.Tree Model.CoreTokens Model.Inline
      Proofs.PlainProse Proofs.EmphSentence Proofs.RefSentence Proofs.LinkSentence Proofs.CodeSpan Proofs.StrikeSentence Proofs.EscSentence Proofs.ImageSentence
-     Proofs.LeafSpans Spec.Fragment.
+     Proofs.LeafSpans Proofs.ListLaw Proofs.EmphSimple Proofs.EmphPhrases Proofs.NestedEmph Spec.Fragment.
 Import ListNotations.
 Local Open Scope Z_scope.
 
@@ -12,6 +12,7 @@ Definition inl_ok (pre : str) (x : inl) (post : str) : bool :=
   | IStrike w => strike_ok pre w post
   | IEsc c => esc_ok pre c post
   | IImg w d => ilink_ok pre w d post
+  | INest ch k h ps z => nest_ok ch k pre h ps z post
   end.
 
 Definition inl_tok (x : inl) : tok :=
@@ -19,25 +20,28 @@ Definition inl_tok (x : inl) : tok :=
   | IStrike w => Strikethrough [RawText w]
   | IEsc c => EscapeSequence [RawText [c]]
   | IImg w d => image_of w d
+  | INest ch k h ps z => nest_of ch k h ps z
   end.
 
 Theorem one_in_sentence types fn pre x post :
-  leaf_spans types = true -> inl_ok pre x post = true ->
+  leaf_spans types = true -> emph_spans types = true -> inl_ok pre x post = true ->
   tokenize_inner types fn (pre ++ inl_text x ++ post) = raw_if pre ++ [inl_tok x] ++ raw_if post.
 Proof.
-  intros Hs Ho. unfold leaf_spans in Hs. repeat rewrite andb_true_iff in Hs. destruct Hs as [[[Hr _] Hst] He].
-  destruct x as [w|c|w d]; cbn [inl_ok inl_text inl_tok] in *.
+  intros Hs Hem Ho. unfold leaf_spans in Hs. repeat rewrite andb_true_iff in Hs. destruct Hs as [[[Hr _] Hst] He].
+  destruct x as [w|c|w d|ch k h ps z]; cbn [inl_ok inl_text inl_tok] in *.
   - rewrite <- !app_assoc. apply strike_in_sentence; assumption.
   - change (pre ++ [92; c] ++ post) with (pre ++ [92; c] ++ post). apply escape_in_sentence; assumption.
   - rewrite <- !app_assoc. apply image_in_sentence; assumption.
+  - pose proof (nested_emphasis types fn ch k pre h ps z post Hem Ho) as T. unfold nest_text in T. rewrite <- !app_assoc in T. rewrite <- !app_assoc. exact T.
 Qed.
 
 Lemma inl_plain pre x post : inl_ok pre x post = true -> plain_text pre = true /\ plain_text post = true.
 Proof.
-  destruct x as [w|c|w d]; cbn [inl_ok]; intros H.
+  destruct x as [w|c|w d|ch k h ps z]; cbn [inl_ok]; intros H.
   - unfold strike_ok in H. repeat rewrite andb_true_iff in H. tauto.
   - unfold esc_ok in H. repeat rewrite andb_true_iff in H. tauto.
   - unfold ilink_ok in H. repeat rewrite andb_true_iff in H. tauto.
+  - unfold nest_ok in H. repeat rewrite andb_true_iff in H. tauto.
 Qed.
 
 (* neither a newline nor a pipe in the sentence *)
@@ -48,7 +52,7 @@ Proof.
   assert (Hr : mem c triggers_r = true) by (destruct Hc as [->| ->]; reflexivity).
   unfold mem. rewrite !existsb_app. fold (mem c pre). fold (mem c post). fold (mem c (inl_text x)).
   rewrite (plain_no c pre Ht Hpre), (plain_no c post Ht Hpost), orb_false_r. cbn [orb].
-  destruct x as [w|e|w d]; cbn [inl_ok inl_text] in *.
+  destruct x as [w|e|w d|ch k h ps z]; cbn [inl_ok inl_text] in *.
   - unfold strike_ok in Ho. repeat rewrite andb_true_iff in Ho. destruct Ho as [[[_ Hw] _] _].
     unfold mem. rewrite !existsb_app. fold (mem c w). rewrite (plain_no c w Ht Hw). destruct Hc as [->| ->]; reflexivity.
   - unfold esc_ok in Ho. repeat rewrite andb_true_iff in Ho. destruct Ho as [_ He]. unfold esc_char in He. apply andb_true_iff in He as [_ He]. apply negb_true_iff in He.
@@ -57,4 +61,12 @@ Proof.
     assert (T : mem c triggers_x = true) by (destruct Hc as [->| ->]; reflexivity). rewrite T in He. discriminate.
   - unfold ilink_ok in Ho. repeat rewrite andb_true_iff in Ho. destruct Ho as [[[[[_ Hw] _] _] Hd] _].
     unfold mem. rewrite !existsb_app. fold (mem c w). fold (mem c d). rewrite (plain_no c w Ht Hw), (dest_no c d Hr Hd). destruct Hc as [->| ->]; reflexivity.
+  - unfold nest_ok in Ho. repeat rewrite andb_true_iff in Ho.
+    destruct Ho as [[[[[[[[[[[[[H1 _] _] _] H5] _] _] _] H9] H10] _] _] _] _].
+    assert (C1 : c <> 42) by (destruct Hc as [->| ->]; discriminate). assert (C2 : c <> 95) by (destruct Hc as [->| ->]; discriminate).
+    assert (Hch : ch = 42 \/ ch = 95) by (apply orb_true_iff in H1 as [E|E]; apply Z.eqb_eq in E; [left|right]; exact E).
+    assert (Hps : Forall phrase_ok ps) by (apply Forall_forall; intros p Hp; rewrite forallb_forall in H9; apply phrase_okb_spec; apply H9; exact Hp).
+    unfold mem. rewrite !existsb_app. fold (mem c (repeat ch (S k))). fold (mem c h). fold (mem c (body ps)). fold (mem c z).
+    rewrite (mem_repeat c ch) by (destruct Hch as [->| ->]; assumption).
+    rewrite (plain_no c h Ht H5), (plain_no c z Ht H10), (body_no c Ht C1 C2 ps Hps). reflexivity.
 Qed.
